@@ -130,7 +130,7 @@ pub fn check_decimal(ctx: &mut Ctx, lit: &[u8], ty: &IntTy, via: &str) {
 
 pub fn run(cfg: &Cfg, rep: &mut Report) {
     // (1) boundary-directed, every type
-    let n = cfg.n(60, 3_200_000, 64_000_000);
+    let n = cfg.n(60, 3_200_000, 400_000_000);
     run_cases(cfg, "boundary", n, rep, |rng, ctx| {
         let ty = &INT_TYPES[(ctx.index % 10) as usize];
         let anchor: i128 = match rng.usize(12) {
@@ -154,7 +154,7 @@ pub fn run(cfg: &Cfg, rep: &mut Report) {
         }
     });
     // (2) zero in every spelling + random literals + exponents
-    let n = cfg.n(40, 2_400_000, 48_000_000);
+    let n = cfg.n(40, 2_400_000, 400_000_000);
     run_cases(cfg, "random", n, rep, |rng, ctx| {
         let ty = &INT_TYPES[(ctx.index % 10) as usize];
         let lit = match rng.usize(8) {
@@ -203,7 +203,7 @@ pub fn run(cfg: &Cfg, rep: &mut Report) {
     rep.exhaustive.insert("u8,i8: every k/8 for k in -2400..=2407 in plain spelling (+6 random re-spellings each)".into(), complete);
 
     // (4) non-decimal literals, MIN/MAX keywords, rejected element kinds; also through the real lexer + Parameters
-    let n = cfg.n(40, 1_000_000, 20_000_000);
+    let n = cfg.n(40, 1_000_000, 200_000_000);
     run_cases(cfg, "other-elements", n, rep, |rng, ctx| {
         let ty = &INT_TYPES[(ctx.index % 10) as usize];
         bump(ctx, 1);
